@@ -47,6 +47,8 @@ class Gen:
         self.json_safe = False
         self._forced = None
         self._reserved = None
+        self.error_records = True      # now and then a record is declared with "type": "error" (same thing everywhere but in the JSON grammar)
+        self.empty_enums = False       # enums without symbols (no datum conforms): only where no data are needed
 
     # ------------------------------------------------------------------ schemas (IR)
     def fresh(self, prefix):
@@ -212,9 +214,9 @@ class Gen:
         if k == "enum":
             tns = self._forced[0] if self._forced else self.pick_ns(ns)
             full = self.full(tns, self.fresh_named("E", tns))
-            syms = r.sample(SYMS, r.randint(1, 4))
-            d = {"k": "enum", "full": full, "ns": tns, "syms": syms, "hasdef": r.random() < 0.3, "aliases": self.mk_aliases()}
-            d["default"] = r.choice(syms)
+            syms = r.sample(SYMS, 0 if (self.empty_enums and r.random() < 0.06) else r.randint(1, 4))
+            d = {"k": "enum", "full": full, "ns": tns, "syms": syms, "hasdef": bool(syms) and r.random() < 0.3, "aliases": self.mk_aliases()}
+            d["default"] = r.choice(syms) if syms else None
             self.defs[full] = d
             return d
         if k == "fixed":
@@ -235,6 +237,8 @@ class Gen:
             tns = self._forced[0] if self._forced else self.pick_ns(ns)
             full = self.full(tns, self.fresh_named("R", tns))
             d = {"k": "record", "full": full, "ns": tns, "fields": [], "aliases": self.mk_aliases()}
+            if self.error_records and not self.json_safe and r.random() < 0.06:
+                d["error"] = True
             self.defs[full] = d
             self.open.append(full)
             nf = r.choice([0, 1, 1, 2, 2, 3, 4]) if depth > 0 else r.choice([0, 1, 2])
@@ -364,6 +368,8 @@ class Gen:
                 return True, r.choice(["", "dflt", "é😀"])
             return False, None      # bytes: the Python representation of the default is not pinned by any property
         if k == "enum":
+            if not t["syms"]:
+                return False, None
             return True, r.choice(t["syms"])
         if k == "fixed":
             return False, None
@@ -429,7 +435,7 @@ class Gen:
         if k == "union":
             return [self.render(b, ns) for b in t["br"]]
         # named types
-        d = {"type": k}
+        d = {"type": "error" if t.get("error") else k}
         tns = t["ns"]
         simple = t["full"].rsplit(".", 1)[-1]
         style = r.random()
@@ -575,6 +581,8 @@ class Gen:
         if k == "prim":
             return self.prim_datum(t)
         if k == "enum":
+            if not t["syms"]:
+                raise NoDatum("enum without symbols")
             return r.choice(t["syms"])
         if k == "fixed":
             if t.get("lt") == "decimal":
